@@ -198,7 +198,8 @@ def run(tier: str) -> int:
         rep.discrepancy(sigs, {"kind": q["kind"], "shape": shape, "calls": q["hist"], "library_sql": rec["sql"], "reference_sql": q["ref_shaped"],
                                "engine": rec["prepare"] or rec.get("witness")},
                         what="SQLite rejects the rendered statement" if v["fault"] == "prepare-error" else "the rendered statement and its reference transcription give different results")
-    ok = [e for e in events if e["tid"] not in {v["tid"] for v in bad}]
+    badids = {v["tid"] for v in bad}
+    ok = [e for e in events if e["tid"] not in badids]
     for e in ok[:: max(1, len(ok) // 4)][:4]:
         (tid, q, shape, _, _), rec = byid[e["tid"]]
         rep.sample({"kind": q["kind"], "shape": shape, "library_sql": rec["sql"], "reference_sql": q["ref_shaped"],
